@@ -76,6 +76,10 @@ MODELS = [
     ("output_node_noise_cmos", "pyxel.models.charge_measurement.readout_noise", "output_node_noise_cmos", "cmos", {"readout_noise": 1.0, "readout_noise_std": 2.0}, "seed"),
     ("dark_current_saphira", "pyxel.models.charge_generation.dark_current_saphira", "dark_current_saphira", "apd", {}, "seed"),
     ("readout_noise_saphira", "pyxel.models.charge_measurement.readout_noise", "readout_noise_saphira", "apd", {"roic_readout_noise": 0.15, "controller_noise": 0.1}, "seed"),
+    ("charge_deposition/isotropic", "pyxel.models.charge_generation.charge_deposition", "charge_deposition", "ccd",
+     {"flux": 30.0, "step_size": 5.0, "energy_mean": 100.0, "energy_spread": 0.1, "particle_direction": "isotropic", "stopping_power_curve": "@data/protons-in-silicon_stopping-power.csv"}, "seed"),
+    ("charge_deposition/orthogonal", "pyxel.models.charge_generation.charge_deposition", "charge_deposition", "ccd",
+     {"flux": 30.0, "step_size": 5.0, "energy_mean": 100.0, "energy_spread": 0.1, "particle_direction": "orthogonal", "stopping_power_curve": "@data/protons-in-silicon_stopping-power.csv"}, "seed"),
     ("pulse_processing", "pyxel.models.phasing.pulse_processing", "pulse_processing", "mkid", {"wavelength": 0.6, "responsivity": 1.0, "scaling_factor": 2.5e2}, None),
     ("sar_adc_with_noise", "pyxel.models.readout_electronics.sar_adc_with_noise", "sar_adc_with_noise", "ccd8", {"strengths": [0.0] * 8, "noises": [1e-3] * 8}, None),
 ]
@@ -203,10 +207,19 @@ def _cheap_physics(p):
     p.attr(pp, "convert_to_phase", lambda array_2d, **kw: np.full(np.asarray(array_2d).shape, 5.0), "deterministic physics, no RNG use")
 
 
+def _kw(kw):
+    """Keyword arguments with '@data/<file>' resolved to the data files shipped with the charge-generation models."""
+    import pyxel
+
+    base = os.path.join(os.path.dirname(pyxel.__file__), "models", "charge_generation", "data")
+    return {k: (os.path.join(base, v[6:]) if isinstance(v, str) and v.startswith("@data/") else v) for k, v in kw.items()}
+
+
 def model(i):
     import importlib
 
     label, modname, fname, kind, kw, seedarg = MODELS[i]
+    kw = _kw(kw)
     f = getattr(importlib.import_module(modname), fname)
     fail = vx.boolean("late_failure") if seedarg else None
     for variant in (("seeded", "unseeded") if seedarg else ("unseeded",)):
@@ -229,7 +242,10 @@ def model(i):
             except Exception as e:  # noqa: BLE001
                 raised = e
             final, dr, seeds = rng.state, list(rng.draws), list(rng.seeds)
+            entropy = list(rng.entropy)
         if variant == "seeded":
+            # a seeded model draws from nothing but its seed: no generator created from operating-system entropy
+            vx.prove(f"C04/model/{label}/no_entropy_when_seeded", not entropy, generators=str(entropy[:3]))
             vx.prove(f"C04/model/{label}/restore", _eq(final, rngmodel.STATE0), raised=repr(raised)[:80] if raised else None)
             vx.prove(f"C04/model/{label}/draws_independent", all(not rng.depends_on_initial_state(t) for _, t in dr))
             if raised is None:
@@ -248,7 +264,11 @@ def _buckets(d):
         c = getattr(d, "_" + b, None)
         a = getattr(c, "_array", None) if c is not None else None
         out[b] = None if a is None else np.array(a, dtype=float)
-    out["charge"] = np.array(d.charge.array, dtype=float)
+    try:
+        out["charge"] = np.array(d.charge.array, dtype=float)
+    except Exception as e:  # noqa: BLE001  (a frame the real binning cannot type: compare the raw table instead)
+        out["charge"] = np.array(d.charge._frame.to_numpy(dtype=float, na_value=np.nan), dtype=float) if len(d.charge._frame) else np.zeros(0)
+        out["charge_error"] = np.array([float(len(type(e).__name__))])
     return out
 
 
@@ -263,6 +283,7 @@ def model_twice(i):
     import importlib
 
     label, modname, fname, kind, kw, seedarg = MODELS[i]
+    kw = _kw(kw)
     f = getattr(importlib.import_module(modname), fname)
     runs = []
     with Patch() as p:
@@ -473,9 +494,20 @@ def replay(oid, kwargs, model, data):
 
     if data["fn"] == "model":
         label, modname, fname, kind, kw, seedarg = MODELS[kwargs["i"]]
+        kw = _kw(kw)
         f = getattr(importlib.import_module(modname), fname)
         _p = Patch()
         _cheap_physics(_p)  # stays in place for this replay process
+        if "no_entropy_when_seeded" in oid:
+            # the same seeded call from two different prior states of the process-wide generator must leave the same buckets
+            outs = []
+            for prior in (1, 2):
+                np.random.seed(3000 + prior)
+                d = _detector(kind)
+                f(d, **{**kw, seedarg: 1234})
+                outs.append(_buckets(d))
+            same = _same_buckets(outs[0], outs[1])
+            return (not same), {"seeded_model_gives_the_same_buckets_twice": same}
         res = {}
         for prior in (1, 2):
             np.random.seed(1000 + prior)
@@ -554,6 +586,7 @@ def replay(oid, kwargs, model, data):
         import importlib
 
         label, modname, fname, kind, kw, seedarg = MODELS[kwargs["i"]]
+        kw = _kw(kw)
         f = getattr(importlib.import_module(modname), fname)
         outs, states = [], []
         with Patch() as p:
